@@ -90,6 +90,7 @@ VT = TypeVar('VT')
 
 _SKIP = Reserved('SKIP')
 _SELF = Reserved('SELF')
+_MISSING = object()
 
 
 class MapLike(Protocol[KT, VT]):
@@ -435,7 +436,8 @@ class TreeMapView(Mapping[TreeMapKey, LeafValueT]):
     # key paths.
     if self.key_paths is not None:
       for key in self.key_paths:
-        if self.get(key) is not None:
+        # Skips the absent keys, a present None value is still a value.
+        if self.get(key, _MISSING) is not _MISSING:
           yield key
       return
     yield from _dfs_iter_tree(self.data, Key())
